@@ -69,7 +69,44 @@ def configs():
     for with_ctx in (False, True):
         for kw in base:
             cfgs.append((with_ctx, kw))
+    # a context database with every fallback configured (unknown macro / environment / specials specs) and one with
+    # overlapping multi-character specials of its own
+    for with_ctx in ('fallbacks', 'ownspecials'):
+        for kw in (base[0], base[1], base[6], base[12], base[15], base[18]):
+            cfgs.append((with_ctx, kw))
     return cfgs
+
+
+_CTXS = {}
+
+
+def context_for(with_ctx):
+    if not with_ctx:
+        return None
+    if with_ctx is True:
+        return default_ctx()
+    if with_ctx not in _CTXS:
+        from pylatexenc.macrospec import LatexContextDb, MacroSpec, EnvironmentSpec, SpecialsSpec
+        if with_ctx == 'fallbacks':
+            db = default_ctx()
+            db2 = LatexContextDb()
+            for cat in db.categories():
+                db2.add_context_category(cat, macros=list(db.iter_macro_specs([cat])),
+                                         environments=list(db.iter_environment_specs([cat])),
+                                         specials=list(db.iter_specials_specs([cat])))
+            db2.set_unknown_macro_spec(MacroSpec(''))
+            db2.set_unknown_environment_spec(EnvironmentSpec(''))
+            db2.set_unknown_specials_spec(SpecialsSpec(''))
+            db2.freeze()
+            _CTXS[with_ctx] = db2
+        else:
+            db = LatexContextDb()
+            db.add_context_category('s', macros=[MacroSpec('a', '{')], specials=[
+                SpecialsSpec(x) for x in ('~', '--', '---', '``', "''", '&', 'ab', '<<', '!a', '\n\n', '$|')])
+            db.set_unknown_specials_spec(SpecialsSpec('??'))
+            db.freeze()
+            _CTXS[with_ctx] = db
+    return _CTXS[with_ctx]
 
 
 CONFIGS = configs()
@@ -107,7 +144,7 @@ def read_all(s, with_ctx, kw, tol, rec):
     for k in ('latex_group_delimiters', 'latex_inline_math_delimiters', 'latex_display_math_delimiters'):
         if k in kw2:
             kw2[k] = [tuple(x) for x in kw2[k]]
-    ps = ParsingState(s=s, latex_context=(default_ctx() if with_ctx else None), **kw2)
+    ps = ParsingState(s=s, latex_context=context_for(with_ctx), **kw2)
     tr = LatexTokenReader(s, tolerant_parsing=tol)
     out = ''
     nreads = 0
